@@ -915,6 +915,9 @@ class World(object):
         st.store = Store('dest' if st.dest is not None else 'new', vals=exact, route='arith',
                          prop=prop, judge_cb=(st.dest is not None), arith=f)
         st.extra['arith_route'] = route
+        # NumPy route with array_op_out_like: the ordinary result is built first and then converted
+        # into an object like the template (two stores, the second has the first as its input)
+        st.extra['np_two_stage'] = route == 'np' and ao.config.array_op_out_like is not None
         yield
         ao = self.obj(a)
         bv = self.obj(b) if b is not None else V.carrier(bd['val'])
